@@ -244,6 +244,7 @@ class Outcome:
         self.observed = {}
         self.variants = []
         self.exhaustive = False
+        self.digests = {}
         self.t0 = time.time()
 
     MAXKEYS = ("max_", "distinct_saturated")
@@ -271,6 +272,8 @@ class Outcome:
                 self.inconclusive.append(j)
             elif t == "harness_error":
                 self.harness_errors.append(j)
+            elif t == "digest":
+                self.digests.setdefault(label, {})[(j["section"], j["first_case"], j["cases"])] = j["hash"]
             elif t == "note":
                 self.observed.setdefault("notes", []).append(j.get("text"))
         if rr.timed_out:
@@ -294,10 +297,12 @@ class Outcome:
         self.vkeys[key] = self.vkeys.get(key, 0) + 1
 
 
-def run_sharded(out, exe, args, vname, cases, shards=None, first=0, timeout=900, label="", use_distinct=True, wrapper=()):
+def run_sharded(out, exe, args, vname, cases, shards=None, first=0, timeout=900, label="", use_distinct=True, wrapper=(), extra_env=None):
     """Run a driver over `cases` cases split over shards processes."""
     shards = shards or min(NCPU, max(1, cases // 20))
     env = san_env(vname)
+    if extra_env:
+        env.update(extra_env)
     futs = []
     for i in range(shards):
         dfile = os.path.join(workdir(), "d-%s-%d-%d.bin" % (hashlib.md5((exe + label + vname + " ".join(args)).encode()).hexdigest()[:10], i, shards))
